@@ -6,7 +6,6 @@ import (
 	"errors"
 	"fmt"
 	"net/netip"
-	"time"
 
 	"github.com/fxamacker/cbor/v2"
 
@@ -114,7 +113,7 @@ func (p *Peering) createPeeringRequest(client bool) (*peeringRequestState, frame
 		return nil, nil, fmt.Errorf("build frame: %w", err)
 	}
 	f.SetTTL(0)
-	f.SetSequenceTime(time.Now().Round(state.DefaultPrecision).Add(-state.DefaultPrecision))
+	f.SetSequenceTime(state.NextSeqTime(state.DefaultPrecision))
 	if err := f.SignRaw(p.instance.Identity().PrivateKey); err != nil {
 		return nil, nil, fmt.Errorf("sign frame: %w", err)
 	}
